@@ -653,7 +653,7 @@ class Interp:
 
     # ------------------------------------------------------------------ attributes
     def get_attr(self, v: Value, name: str, node: Optional[ast.AST], fr: Optional[Frame]) -> Value:
-        if isinstance(v, ListV) and v.absorbed is not None:
+        if isinstance(v, ListV) and v.absorbed is not None and name not in ("append", "extend", "insert"):
             v = v.absorbed
         if isinstance(v, Obj):
             if name in v.fields:
